@@ -2,12 +2,16 @@
 
 Scheduler decides: the recorder's position among the clockables (re-drawn before every
 edge), the split of the run into clk() calls, cancellation by stop() and resumption,
-simulator restarts, clear() between segments.  Oracles: a shadow recorder (twin of real
+simulator restarts, clear() between segments, further clock domains (free running or gated
+sub-blocks, visited in re-drawn order), the recorder instantiated after the simulator existed
+and ran (late_attach), intermediate renderings.  Oracles: a shadow recorder (twin of real
 blocks stepped one edge at a time by the harness: the value going into each edge);
 getDict() equality; a small WaveDrom decoder (strip the framing 'x', expand '.', map
 '0'/'1', take labels from 'data' in the wire's display format) must give the samples back;
-every wave spans cycles + 2 characters.
+every wave spans cycles + 2 characters; a rendering already handed out does not change when
+later recordings are rendered.
 """
+import copy
 import random
 
 import py4hw
@@ -27,14 +31,29 @@ RULE = ('each run: a seeded design (sequences with repeats, counters, registers,
 REAL = ['py4hw.logic.simulation.Waveform (clock, getDict, get_wavedrom, clear)', 'py4hw.simulation.Simulator']
 STUB = ['stimulus', 'cancelling listener']
 ASSUMPTIONS = ['WaveDrom text format as produced by get_wavedrom: framing x, "." = repeat, "2" + label for multi-bit wires']
-PROBES = ['zero_cycles', 'duplicate_entry', 'port_alias', 'repeat_run', 'value_change', 'clear_between', 'wide_label', 'stop_cancel', 'sim_restart']
+PROBES = ['zero_cycles', 'duplicate_entry', 'port_alias', 'repeat_run', 'value_change', 'clear_between', 'wide_label', 'stop_cancel', 'sim_restart',
+          'extra_clock_domain', 'recorder_attached_late', 'intermediate_rendering']
 
 
 def gen(rs, tier, index):
     rng = rs.get('design')
     comb = [KINDS[k] for k in ('And2', 'Or2', 'Not', 'Mux2', 'Add', 'Buf', 'Range', 'Equal', 'Constant')]
     seqk = [KINDS[k] for k in ('Reg', 'Counter', 'Sequence', 'Sequence', 'ModuloCounter', 'DelayLine', 'TReg')]
-    d = netlist.gen_design(rng, rng.choice([3, 6, 10]), comb, feedback=0.2, seq_kinds=seqk, seq_frac=0.6, maxw=64)
+    d = netlist.gen_design(rng, rng.choice([3, 6, 10]), comb, hier_depth=rng.choice([0, 0, 1, 2]), feedback=0.2,
+                           seq_kinds=seqk, seq_frac=0.6, maxw=64)
+    # further clock domains: sub-blocks with a driver of their own (free running, or gated by an input); the recorder
+    # itself stays in the system domain, the order in which the domains are visited is re-drawn before every edge
+    groups = sorted({'/'.join(nd['grp'][:k]) for nd in d['nodes'] for k in range(1, len(nd['grp']) + 1)})
+    dr = rs.get('domains')
+    gd = {}
+    for g in groups:
+        if dr.random() < 0.4:
+            en = None
+            if dr.random() < 0.4:
+                en = 'i%d' % len(d['inputs'])
+                d['inputs'].append({'name': en, 'w': 1, 'role': 'enable'})
+            gd[g] = {'name': 'clk_' + g.replace('/', '_'), 'en': en, 'idiom': 'enable', 'mode': 'input' if en else 'none'}
+    d['group_driver'] = gd
     for nd in d['nodes']:
         if nd['kind'] == 'Sequence' and rng.random() < 0.6:
             # repeats: run-length encoded in the rendering
@@ -77,7 +96,9 @@ def gen(rs, tier, index):
                           'restart': fr.random() < 0.08, 'pseed': rs.sub('p%d_%d' % (s, len(steps)))})
             c += n
         segs.append({'steps': steps})
-    return {'design': d, 'watch': watch, 'segs': segs, 'short': rng.random() < 0.5}
+    # late_attach: the simulator exists and has run before the recorder is instantiated (then getSimulator() again)
+    return {'design': d, 'watch': watch, 'segs': segs, 'short': rng.random() < 0.5,
+            'late_attach': fr.choice([None, None, None, 0, 2, 5]), 'mid_render': fr.random() < 0.4}
 
 
 def decode_wavedrom(sig, width, fmt_hex=True):
@@ -107,6 +128,26 @@ def decode_wavedrom(sig, width, fmt_hex=True):
     if data:
         raise ValueError('unused labels %r' % data)
     return out
+
+
+def check_rendering(wd, entries, keys, shadow, cycles, where, gi, st):
+    sigs = wd['signal']
+    if len(sigs) != len(entries) + 1:
+        raise Violation('render', 'render:signal-count', gi, '%s: %d signals for %d entries' % (where, len(sigs), len(entries)))
+    if len(sigs[0]['wave']) != cycles + 2:
+        raise Violation('render', 'render:clk-span', gi, '%s: clk wave %r' % (where, sigs[0]['wave']))
+    for e, k, sg in zip(entries, keys, sigs[1:]):
+        if len(sg['wave']) != cycles + 2:
+            raise Violation('render', 'render:span', gi, '%s: wave of %s spans %d chars for %d cycles' % (where, sg['name'], len(sg['wave']), cycles))
+        try:
+            dec = decode_wavedrom(sg, k.getWidth())
+        except ValueError as ex:
+            raise Violation('render', 'render:undecodable', gi, '%s: %s: %s' % (where, sg['name'], ex))
+        if dec != shadow[id(k)]:
+            raise Violation('render', 'render:decoded-value', gi, '%s: %s decodes to %s..., recorded %s...' % (
+                where, sg['name'], dec[:8], shadow[id(k)][:8]))
+        if k.getWidth() > 16 and sg.get('data'):
+            st.probe('wide_label')
 
 
 def run(scn, log, st):
@@ -140,9 +181,33 @@ def run(scn, log, st):
     if not entries:
         w = b.wire(sorted(b.sigw)[0])
         entries, keys = [w], [w]
+    gated = any(v.get('en') for v in (d.get('group_driver') or {}).values())
+    if d.get('group_driver'):
+        st.probe('extra_clock_domain')
+
+    def twin_edge():
+        if gated:
+            ten = netlist.enabled_nodes(d, lambda r: twin.b.wires[r].get())
+            twin.edge(enabled=lambda leaf: twin.leaf_node.get(id(leaf)) in ten)
+        else:
+            twin.edge()
+    if scn.get('late_attach') is not None:
+        with quiet():
+            sim = b.hw.getSimulator()
+        vec0 = [0] * len(d['inputs'])
+        b.set_inputs(vec0)
+        twin.set_inputs(vec0)
+        twin.settle()
+        with quiet():
+            sim.clk(scn['late_attach'])
+        for _ in range(scn['late_attach']):
+            twin_edge()
+        st.probe('recorder_attached_late')
+        st.fault('late_attach')
     wvf = py4hw.Waveform(b.hw, 'wvf', list(entries))
     with quiet():
         sim = b.hw.getSimulator()
+    kept = []           # (where, rendering, snapshot of it): a rendering is a document, later recordings leave it alone
     stopper = Stopper(sim)
     sim.addListener(stopper)
     uniq = []
@@ -195,9 +260,15 @@ def run(scn, log, st):
             for _ in range(step['n']):
                 for k in uniq:
                     shadow[id(k)].append(twin.b.wires[ref_of[id(k)]].get())
-                twin.edge()
+                twin_edge()
             cycles += step['n']
             st.cycles += step['n']
+            if scn.get('mid_render') and si == (len(seg['steps']) + 1) // 2 and si < len(seg['steps']):
+                with quiet():
+                    mid = wvf.get_wavedrom(shortNames=scn['short'])
+                check_rendering(mid, entries, keys, shadow, cycles, 'segment %d after %d cycles (intermediate rendering)' % (gi, cycles), gi, st)
+                kept.append(('segment %d after %d cycles' % (gi, cycles), mid, copy.deepcopy(mid)))
+                st.probe('intermediate_rendering')
         # ---- oracles for this segment
         where = 'segment %d (%d cycles)' % (gi, cycles)
         data = wvf.getDict()
@@ -222,23 +293,11 @@ def run(scn, log, st):
             st.probe('zero_cycles')
         with quiet():
             wd = wvf.get_wavedrom(shortNames=scn['short'])
-        sigs = wd['signal']
-        if len(sigs) != len(entries) + 1:
-            raise Violation('render', 'render:signal-count', gi, '%s: %d signals for %d entries' % (where, len(sigs), len(entries)))
-        if len(sigs[0]['wave']) != cycles + 2:
-            raise Violation('render', 'render:clk-span', gi, '%s: clk wave %r' % (where, sigs[0]['wave']))
-        for e, k, sg in zip(entries, keys, sigs[1:]):
-            if len(sg['wave']) != cycles + 2:
-                raise Violation('render', 'render:span', gi, '%s: wave of %s spans %d chars for %d cycles' % (where, sg['name'], len(sg['wave']), cycles))
-            try:
-                dec = decode_wavedrom(sg, k.getWidth())
-            except ValueError as ex:
-                raise Violation('render', 'render:undecodable', gi, '%s: %s: %s' % (where, sg['name'], ex))
-            if dec != shadow[id(k)]:
-                raise Violation('render', 'render:decoded-value', gi, '%s: %s decodes to %s..., recorded %s...' % (
-                    where, sg['name'], dec[:8], shadow[id(k)][:8]))
-            if k.getWidth() > 16 and sg.get('data'):
-                st.probe('wide_label')
+        check_rendering(wd, entries, keys, shadow, cycles, where, gi, st)
+        for kw, doc, snap in kept:
+            if doc != snap:
+                raise Violation('render', 'render:earlier-rendering-changed', gi, 'the rendering taken at %s changed when %s was rendered' % (kw, where))
+        kept.append((where, wd, copy.deepcopy(wd)))
         seams.check_prepared_empty(where, gi)
         log.add(gi, cycles, h64(repr([shadow[id(k)] for k in uniq])))
     if st.cycles and changed and repeated:
@@ -261,3 +320,10 @@ def shrink(scn):
                 s2['segs'][gi]['steps'][i] = dict(s, parts=[s['n']], stop_at=None, restart=False)
                 yield s2
     yield from shrink_list(scn, 'watch', 1)
+    if scn.get('late_attach') is not None:
+        yield dict(scn, late_attach=None)
+    if scn.get('mid_render'):
+        yield dict(scn, mid_render=False)
+    gd = scn['design'].get('group_driver') or {}
+    for g in sorted(gd):
+        yield dict(scn, design=dict(scn['design'], group_driver={k: v for k, v in gd.items() if k != g}))
